@@ -72,7 +72,7 @@ void gen_hist_ops(Rng& g, Rng& fr, const std::string& prop, unsigned nops, bool 
       // whole-tree operations make many requests: spread single refusals over all of them (index taken modulo the real count)
       o.fk = fr.chance(3, 4) ? F_NTH : F_FROM; o.fkk = fr.below(64);
     } else if (with_faults && fr.chance(1, 5)) {
-      switch (fr.below(6)) { case 0: case 1: o.fk = F_NTH; o.fkk = fr.below(8); break; case 2: case 3: o.fk = F_FROM; o.fkk = fr.below(6); break; case 4: o.fk = F_REALLOC_ONLY; o.fkk = 0; break; default: o.fk = F_PROB; o.fkk = fr.range(100, 500); }
+      switch (fr.below(7)) { case 0: case 1: o.fk = F_NTH; o.fkk = fr.below(8); break; case 2: case 3: o.fk = F_FROM; o.fkk = fr.below(6); break; case 4: o.fk = F_REALLOC_ONLY; o.fkk = 0; break; case 5: o.fk = F_PROB; o.fkk = fr.range(100, 500); break; default: o.fk = F_QUOTA; o.fkk = fr.below(700); }
     }
     if (deep_follow > 0 && code != OP_LOAD_RAW) { o.a = SEL_LAST; deep_follow--; }
     ops.push(hop_to_json(o));
